@@ -251,6 +251,10 @@ def run(fx, chk, tier):
     chk.rule("R6", "unknown / unrelated items and 64-bit size headers never change what the metadata decoders return: default arm only advances, decoders reposition to their end, advances and loop cursors are based on the position after the child's header (C12 R1/R2/R5 instances of moov/udta/meta/ilst/item/data)")
     META = ("MoovBox", "UdtaBox", "MetaBox", "IlstBox", "IlstItemBox", "DataBox", "skip_box")
     compose(fx, chk, tier, "R6", "C12", ["R1", "R2", "R5"], keyfilter=lambda o: any(x in o["key"] for x in META), floor=34, what="layout obligations of the metadata decoders")
+    chk.rule("R7", "payloads are returned verbatim: the data / item decoders read the whole payload (no partial-transfer primitive, C10 R2) into the field the encoder writes it from, unedited, and end at the box end (C04 S3/S4/S5/S6 of data, ilst item, ilst, meta)")
+    MD = ("DataBox", "IlstItemBox", "IlstBox", "MetaBox")
+    compose(fx, chk, tier, "R7", "C04", ["S3", "S4", "S5", "S6"], keyfilter=lambda o: any(x in o["key"] for x in MD), floor=12, what="layout obligations of the payload decoders")
+    compose(fx, chk, tier, "R7", "C10", ["R2"], keyfilter=lambda o: o["ok"] or any(x in o["key"] for x in MD + ("data::", "ilst::", "meta::")), floor=15, what="whole-transfer obligations of the payload decoders")
     return chk.finish(
         "other",
         "Item-code, key and accessor tables are extracted from match arms and compared with each other and with the iTunes codes; the selection path of metadata(), the mdir constant pairing, "
